@@ -554,6 +554,20 @@ theorem wrapFun_fresh (h : Heap) (fn : Nat) (names : List String) (dflts : List 
         h.ws ++ [⟨fn, true, names, h.dicts.length⟩]⟩, .wrapper h.ws.length) := by
   simp only [step, align_tail names dflts hl hn, Heap.addFresh]
 
+/-- **keyword-only parameters** (`def f(a, b=1, *, c, d=2)`): the wrapper's parameters are the
+    positional-or-keyword names followed by the keyword-only names; the positional defaults belong to the
+    LAST positional names (not to the last names overall), every keyword-only default to its own name. -/
+theorem wrapFunKw_spec (h : Heap) (fn : Nat) (names : List String) (dflts : List Val) (kwnames : List String)
+    (kwd : Dict) (hl : dflts.length ≤ names.length) (hn : names.Nodup) (hk : (keys kwd).Nodup) :
+    ∃ d, step h (.wrapFunKw fn names dflts kwnames kwd) = h.addFresh fn true (names ++ kwnames) d ∧
+      ∀ p, d.lookup p = (kwd.lookup p).or (((names.drop (names.length - dflts.length)).zip dflts).lookup p) := by
+  refine ⟨dupdate ((names.drop (names.length - dflts.length)).zip dflts) kwd, ?_, ?_⟩
+  · simp only [step, align_tail names dflts hl hn]
+  · intro p; exact lookup_dupdate _ _ _ hk
+
+example : (run Heap.empty [.wrapFunKw 0 ["x", "y"] [1] ["z", "w"] [("z", 3)], .call 0 [("w", 7), ("x", 5)]]).2 =
+    [.wrapper 0, .value 0 [("x", 5), ("w", 7), ("y", 1), ("z", 3)]] := by decide
+
 /-! ## partial evaluation -/
 
 /-- **all required names bound ⇒ the function value**: `partially_evaluate(**σ)` then is exactly the
@@ -699,6 +713,11 @@ theorem frame_step (h : Heap) (op : Op) (hm : op.mutates = false) : h.Extends (s
   cases op with
   | newDict d => exact ⟨List.prefix_append _ _, List.prefix_rfl⟩
   | wrapFun fn names dflts =>
+    simp only [step]
+    split
+    · exact extends_addFresh _ _ _ _ _
+    · exact Heap.Extends.refl h
+  | wrapFunKw fn names dflts kwnames kwdflts =>
     simp only [step]
     split
     · exact extends_addFresh _ _ _ _ _
@@ -937,6 +956,11 @@ theorem wf_step (h : Heap) (hwf : h.WF) (op : Op) : (step h op).1.WF := by
     split
     · exact wf_addFresh _ hwf _ _ _ _
     · exact hwf
+  | wrapFunKw fn names dflts kwnames kwdflts =>
+    simp only [step]
+    split
+    · exact wf_addFresh _ hwf _ _ _ _
+    · exact hwf
   | wrapConst fn => exact wf_addFresh _ hwf _ _ _ _
   | wrapExplicit fn params dc =>
     cases dc with
@@ -997,6 +1021,74 @@ theorem wf_run (h : Heap) (hwf : h.WF) (ops : List Op) : (run h ops).1.WF := by
   | cons op ops ih => rw [run_cons]; exact ih _ (wf_step h hwf op)
 
 theorem wf_empty : Heap.empty.WF := by intro u hu; simp [Heap.empty] at hu
+
+/-! ## the callable that is inspected is the callable that is invoked -/
+
+theorem graph_map_some (l : List String) (g : String → Option Val) (h : ∀ p ∈ l, (g p).isSome) :
+    (graph l g).map (fun b => (b.1, some b.2)) = l.map fun p => (p, g p) := by
+  induction l with
+  | nil => rfl
+  | cons a t ih =>
+    have ha := h a (by simp)
+    rw [graph_cons]
+    cases hg : g a with
+    | none => simp [hg] at ha
+    | some v => simp [ih (fun p hp => h p (by simp [hp])), hg]
+
+/-- **what the wrapper assembles is what the user's function observes**: the keyword dictionary of a
+    successful call binds against the signature that was inspected without any TypeError (no unknown
+    keyword, no missing parameter) and without the function's own defaults ever being used — the function
+    sees exactly `canon`.  This is why the signature that is read must be the one of the callable that is
+    invoked. -/
+theorem pyBind_of_call (names : List String) (own d env kw : Dict) (hn : names.Nodup)
+    (h : call names d env = .ok kw) :
+    ∃ bs, pyBind names own kw = .ok bs ∧ bs.map (fun b => (b.1, some b.2)) = canon names kw := by
+  obtain ⟨hperm, _, _⟩ := call_binds names d env kw hn h
+  have hmem : ∀ k, k ∈ keys kw ↔ k ∈ names := fun k => hperm.mem_iff
+  have hany : (kw.any fun kv => !names.contains kv.1) = false := by
+    rw [List.any_eq_false]
+    intro kv hkv
+    have : kv.1 ∈ keys kw := List.mem_map_of_mem hkv
+    simp [(hmem kv.1).1 this]
+  have hsome : ∀ p ∈ names, ((kw.lookup p).or (own.lookup p)).isSome := by
+    intro p hp
+    have := (mem_keys_iff kw p).1 ((hmem p).2 hp)
+    cases hk : kw.lookup p with
+    | none => simp [hk] at this
+    | some v => simp
+  refine ⟨graph names fun p => (kw.lookup p).or (own.lookup p), ?_, ?_⟩
+  · unfold pyBind
+    rw [hany]
+    simp only [Bool.false_eq_true, if_false]
+    rw [allSome_graph names _ hsome]
+  · rw [graph_map_some names _ hsome]
+    unfold canon
+    apply List.map_congr_left
+    intro p hp
+    have := (mem_keys_iff kw p).1 ((hmem p).2 hp)
+    cases hk : kw.lookup p with
+    | none => simp [hk] at this
+    | some v => simp
+
+/-- **reading the signature of `__wrapped__` instead is wrong**: `g(x, t, scale=3)` decorating `f(x, t)`
+    with `functools.wraps`.  Inspecting `f` makes the wrapper drop the `scale` the environment stores, and
+    Python silently fills in `g`'s own default: the function observes `scale = 3` although `scale = 1` is
+    stored under that name … -/
+theorem unwrap_inspection_breaks :
+    let c : Callable := { fn := 0, names := ["x", "t", "scale"], dflts := [3], wrapped := some (["x", "t"], []) }
+    let env : Dict := [("scale", 1), ("t", 2), ("x", 4)]
+    (call c.inspectedUnwrapped.1 [] env).bind (pyBind c.names [("scale", 3)])
+      = .ok [("x", 4), ("t", 2), ("scale", 3)] ∧
+    (call c.inspected.1 [("scale", 3)] env).bind (pyBind c.names [("scale", 3)])
+      = .ok [("x", 4), ("t", 2), ("scale", 1)] := by decide
+
+/-- … and when the decorator's wrapper declares fewer names (`g(x)` around `f(x, t)`) the superset
+    environment makes the wrapper pass `t=` to `g`: TypeError, while inspecting `g` itself ignores `t`. -/
+theorem unwrap_inspection_typeerror :
+    let c : Callable := { fn := 0, names := ["x"], dflts := [], wrapped := some (["x", "t"], []) }
+    let env : Dict := [("t", 2), ("x", 4)]
+    (call c.inspectedUnwrapped.1 [] env).bind (pyBind c.names []) = .error .typeError ∧
+    (call c.inspected.1 [] env).bind (pyBind c.names []) = .ok [("x", 4)] := by decide
 
 /-! ## a dict changes only through a mutator applied to a wrapper that owns it -/
 
